@@ -157,7 +157,11 @@ def _lower_message(m, mp, full_name):
 
 
 def _set_http(rule, h):
-    setattr(rule, h["verb"], h["path"]) if h["verb"] in ("get", "put", "post", "delete", "patch") else None
+    if h["verb"] == "custom":
+        rule.custom.kind = h.get("kind", "HEAD")
+        rule.custom.path = h["path"]
+    else:
+        setattr(rule, h["verb"], h["path"])
     if h.get("body"):
         rule.body = h["body"]
     if h.get("response_body"):
